@@ -15,6 +15,7 @@ import (
 )
 
 var vrfEntries = map[string]func(){
+	"VrfC16Stall": VrfC16Stall,
 	"VrfC16Pin":   VrfC16Pin,
 	"VrfC16Unpin": VrfC16Unpin,
 }
@@ -56,6 +57,7 @@ type vrfDaemon struct {
 	held    [2]int
 	reqs    []vrfReq
 	lsFails bool // pin/ls answers with a transport error
+	stall   *vrfStream
 }
 
 func (d *vrfDaemon) idx(s string) int {
@@ -70,8 +72,19 @@ func (d *vrfDaemon) idx(s string) int {
 type vrfAnswer struct {
 	status    int
 	body      string
-	transport bool // the request fails before any response
-	broken    bool // the response body breaks off after "body"
+	transport bool       // the request fails before any response
+	broken    bool       // the response body breaks off after "body"
+	stream    *vrfStream // the body arrives line by line, with time passing in between
+}
+
+// vrfStream is a pin/add answer that takes time: progress lines arrive after
+// gaps[k] nanoseconds each, the final line after gaps[len(lines)]; the daemon
+// holds the CID only when it got to the end without the request being cancelled.
+type vrfStream struct {
+	lines []string
+	gaps  []int64
+	cid   int
+	sent  int
 }
 
 func vrfErrBody(msg string) string { return `{"Message":"` + msg + `","Code":0,"Type":"error"}` }
@@ -100,6 +113,10 @@ func (d *vrfDaemon) answer(path string) vrfAnswer {
 		}
 		return vrfAnswer{status: 500, body: vrfErrBody("path '" + strings.Join(args, "") + "' is not pinned")}
 	case "pin/add":
+		if d.stall != nil {
+			d.reqs = append(d.reqs, vrfReq{cmd: cmd, args: args})
+			return vrfAnswer{status: 200, stream: d.stall}
+		}
 		r := vrfReq{cmd: cmd, args: args, answer: vrf_choice("pin_add_answer", vrfAnsKinds)}
 		d.reqs = append(d.reqs, r)
 		i := -1
@@ -202,11 +219,43 @@ func (b *vrfBody) Read(p []byte) (int, error) {
 }
 func (b *vrfBody) Close() error { return nil }
 
+// vrfStreamBody (engine only): the response body of a slow pin/add. Reading
+// blocks while time passes; like net/http's body it fails as soon as the
+// request context is cancelled.
+type vrfStreamBody struct {
+	ctx  context.Context
+	d    *vrfDaemon
+	s    *vrfStream
+	done bool
+}
+
+func (b *vrfStreamBody) Read(p []byte) (int, error) {
+	if b.done {
+		return 0, io.EOF
+	}
+	vrf_elapse(b.s.gaps[b.s.sent])
+	if err := b.ctx.Err(); err != nil {
+		return 0, err
+	}
+	if b.s.sent < len(b.s.lines) {
+		n := copy(p, b.s.lines[b.s.sent])
+		b.s.sent++
+		return n, nil
+	}
+	b.d.held[b.s.cid] = vrfRecursive
+	b.done = true
+	return copy(p, `{"Pins":["`+vrfCidStrs[b.s.cid]+`"]}`+"\n"), nil
+}
+func (b *vrfStreamBody) Close() error { return nil }
+
 // (engine only) stands for Connector.doPostCtx: the HTTP exchange with the daemon
 func vrfDoPost(ipfs *Connector, ctx context.Context, client *http.Client, apiURL, path, contentType string, body io.Reader) (*http.Response, error) {
 	a := vrfTheDaemon.answer(path)
 	if a.transport {
 		return nil, errors.New("Post: dial tcp: connection refused")
+	}
+	if a.stream != nil {
+		return &http.Response{StatusCode: a.status, Body: &vrfStreamBody{ctx: ctx, d: vrfTheDaemon, s: a.stream}}, nil
 	}
 	return &http.Response{StatusCode: a.status, Body: &vrfBody{data: a.body, broken: a.broken}}, nil
 }
@@ -214,7 +263,7 @@ func vrfDoPost(ipfs *Connector, ctx context.Context, client *http.Client, apiURL
 var vrfTheDaemon *vrfDaemon
 
 func vrfConfig() *Config {
-	return &Config{IPFSRequestTimeout: 5 * time.Second, PinTimeout: 5 * time.Second, UnpinTimeout: 5 * time.Second}
+	return &Config{IPFSRequestTimeout: 5 * time.Second, PinTimeout: vrfPinTimeout, UnpinTimeout: 5 * time.Second}
 }
 
 func (d *vrfDaemon) mutating() []vrfReq {
@@ -316,4 +365,71 @@ func VrfC16Unpin() {
 		}
 	}
 	vrf_reach("C16.unpin.end")
+}
+
+// VrfC16Stall: a pin whose progress reports arrive over time. The connector's
+// watchdog looks once per PinTimeout whether the number of fetched nodes grew
+// during the last PinTimeout. So: a stretch of more than 2*PinTimeout without
+// growth must end in an error (and the daemon must not be left pinning), and a
+// pin whose count grows at least once per PinTimeout must never be given up.
+func VrfC16Stall() {
+	T := int64(vrfPinTimeout)
+	n := vrf_param("lines")
+	st := &vrfStream{cid: 0}
+	prog := 0
+	var t, lastGrowth int64
+	stalled := false // some stretch without growth lasted more than 2T
+	steady := true   // every stretch without growth lasted at most T
+	for k := 0; k <= n; k++ {
+		gap := vrf_nondet_int64("gap")
+		vrf_assume(vrf_and(gap >= 0, gap <= 3*T))
+		st.gaps = append(st.gaps, gap)
+		t += gap
+		grows := k == n // the end of the stream ends the last stretch
+		if k < n {
+			if vrf_choice("progress_grows", 2) == 1 {
+				prog++
+				grows = true
+			}
+			st.lines = append(st.lines, `{"Progress":`+vrfItoa(prog)+`}`+"\n")
+		}
+		if grows {
+			stalled = vrf_or(stalled, t-lastGrowth > 2*T)
+			steady = vrf_and(steady, t-lastGrowth <= T)
+			lastGrowth = t
+		}
+	}
+	d := &vrfDaemon{stall: st}
+	vrfTheDaemon = d
+	ipfs, stop := vrfNewConnector(d)
+	defer stop()
+	pin := api.PinCid(vrfCid(0))
+	pin.MaxDepth = -1
+	pin.Mode = api.PinModeRecursive
+
+	err := ipfs.Pin(context.Background(), pin)
+	vrf_yield()
+
+	vrf_note_bool("stalled_over_2T", stalled)
+	vrf_note_bool("steady_within_T", steady)
+	if err == nil {
+		vrf_assert(d.held[0] == vrfRecursive, "C16.stall.nil-implies-held")
+	} else {
+		vrf_assert(d.held[0] == vrfNone, "C16.stall.given-up-not-held")
+	}
+	vrf_assert(vrf_implies(stalled, err != nil), "C16.stall.gives-up")
+	vrf_assert(vrf_implies(steady, err == nil), "C16.stall.no-false-timeout")
+	vrf_assert(vrf_blocked_goroutines() == 0, "C16.stall.watchdog-ends")
+	vrf_reach("C16.stall.end")
+}
+
+func vrfItoa(i int) string {
+	if i == 0 {
+		return "0"
+	}
+	s := ""
+	for ; i > 0; i /= 10 {
+		s = string(rune('0'+i%10)) + s
+	}
+	return s
 }
